@@ -37,6 +37,7 @@ type binConn struct {
 }
 
 type poolBinComp struct {
+	strayID int
 	refused map[string]bool
 	proc  *exec.Cmd
 	addr  string
@@ -285,7 +286,9 @@ func (c *poolBinComp) Exec(t []string) (extra []string, out string, eff bool) {
 		// hoststray <conn>: the host sends a reply nobody asked for (a late or duplicated answer): it changes nothing,
 		// in particular the pool still notices when this connection ends
 		if bc := c.conns[t[1]]; bc != nil {
-			bc.ws.WriteMessage(websocket.TextMessage, []byte(`{"jsonrpc":"2.0","id":987654,"result":null}`))
+			// (its own id each time: two unsolicited replies under one id are the flood C15 sets aside)
+			c.strayID++
+			bc.ws.WriteMessage(websocket.TextMessage, []byte(fmt.Sprintf(`{"jsonrpc":"2.0","id":%d,"result":null}`, 987654+c.strayID)))
 			time.Sleep(20 * time.Millisecond)
 		}
 		return nil, "ok", false
@@ -408,7 +411,7 @@ func (c *poolBinComp) Exec(t []string) (extra []string, out string, eff bool) {
 		if e := m["error"]; e != nil {
 			msg := string(e)
 			switch {
-			case strings.Contains(msg, "no available host"):
+			case strings.Contains(msg, "no available host"), strings.Contains(msg, "no host nodes available"):
 				return nil, "err NoHosts wl=" + strings.Join(wl, ","), false
 			case strings.Contains(msg, "failed to call"):
 				return nil, "err HostsFailed wl=" + strings.Join(wl, ","), false
